@@ -723,6 +723,11 @@ package mux
 //@ fn WithURLDomain$1
 //@   requires o != nil
 //@   ensures [C10] sets: o.urlDomain == prefix
+// copies are taken when the option is made (a Group keeps its options and applies them again in every New: D44)
+//@ fn WithCORS
+//@   ensures [C11,C07] own-copies: (len(origin) > 0 ==> fresh(capture("mux.WithCORS$1", "origin", result))) &&
+//@        (len(allowHeaders) > 0 ==> fresh(capture("mux.WithCORS$1", "allowHeaders", result))) &&
+//@        (len(exposedHeaders) > 0 ==> fresh(capture("mux.WithCORS$1", "exposedHeaders", result)))
 //@ fn WithCORS$1
 //@   requires o != nil
 //@   ensures [C11,C07] own-copies: (len(origin) > 0 ==> fresh(o.cors.Origins)) && (len(allowHeaders) > 0 ==> fresh(o.cors.AllowHeaders))
